@@ -11,17 +11,17 @@ open Gen
 /-- `Attributes::doc` keeps exactly the written lines: joined with newlines, `none` when there are none -/
 theorem doc_join (attrs : List G.Attr) (h : docsAreStrings attrs = true) :
     G.docOf attrs = some (if docStrings attrs = [] then none else some ("\n".intercalate (docStrings attrs))) := by
-  sorry
+  rw [docOf_eq]; exact foldl_docStep_start attrs h
 
 theorem doc_not_string_rejected (attrs : List G.Attr) (h : docsAreStrings attrs = false) : G.docOf attrs = none := by
-  sorry
+  rw [docOf_eq]; exact foldl_docStep_bad _ attrs h
 
 /-- **line for line, in order**: the doc attributes emitted for an item are the lines written on it
     (each written line is one line: no embedded newline) -/
 theorem docs_line_for_line (attrs : List G.Attr) (h : docsAreStrings attrs = true)
     (hn : ∀ d ∈ docStrings attrs, '\n' ∉ d.toList) :
     (G.docOf attrs).map Emit.docLines = some (docStrings attrs) := by
-  sorry
+  exact docLines_docOf attrs h hn
 
 /-- where docs land: the struct carries the type's doc, each field its region's doc, each wrapper its
     function's doc, each vftable slot its function's doc; module docs become the inner doc lines -/
@@ -30,28 +30,29 @@ theorem docs_on_struct_and_fields (reg : Registry) (path : Path) (size align : N
       Sexp.mk "struct" ([Emit.docsS td.doc, derives, repr, Emit.visS vis, .str (path.getLast?.getD "")] ++
         td.regions.map fun r => Sexp.mk "fld" [Emit.docsS r.doc, Emit.visS r.vis, .str (r.name.getD ""), .str (Emit.rtyStr r.ty)])
       :: tl := by
-  sorry
+  obtain ⟨tl, h⟩ := typeItems_head reg path size align vis td
+  exact ⟨_, _, tl, h⟩
 
 theorem docs_on_wrapper (f : SFunc) :
     ∃ tl, Emit.methodS f = Sexp.mk "method" (Emit.docsS f.doc :: Emit.visS f.vis :: .str f.name :: tl) := by
-  sorry
+  exact methodS_head f
 
 theorem docs_on_slot (owner : Path) (f : SFunc) :
     (functionToRegion owner f).doc = f.doc ∧ (functionToRegion owner f).vis = f.vis
       ∧ (functionToRegion owner f).name = some f.name := by
-  sorry
+  exact ⟨rfl, rfl, rfl⟩
 
 /-- a built function carries the docs written on it, and its declared visibility -/
 theorem function_doc_vis (reg : Registry) (scope : List Path) (v : Bool) (f : G.Func) (sf : SFunc)
     (h : buildFunction reg scope v f = .ok sf) : G.docOf f.attrs = some sf.doc ∧ sf.vis = f.vis := by
-  sorry
+  exact function_doc_vis_aux reg scope v f sf h
 
 /-- copies inherited by derived types keep docs and visibility (only name and body are rewritten) -/
 theorem inherited_copy_keeps_doc (base : String) (acc : InjAcc) (fs : List SFunc) :
     ∀ g ∈ (addFunctions base acc fs).fns, g ∈ acc.fns ∨
       ∃ f ∈ fs, f.vis = .pub ∧ g.doc = f.doc ∧ g.vis = f.vis ∧ g.args = f.args ∧ g.ret = f.ret ∧ g.cc = f.cc
         ∧ g.body = .field base f.name := by
-  sorry
+  exact inherited_aux base acc fs
 
 /-! ## visibility of generated members -/
 
@@ -62,10 +63,10 @@ theorem padding_private (reg : Registry) (off : Nat) (placed : List (Layout.Plac
       (placed[k].src = none → regions[k].vis = .priv ∧ regions[k].doc = none)
       ∧ (∀ r, placed[k].src = some r → r.name.isSome → regions[k] = r)
       ∧ (∀ r, placed[k].src = some r → r.name = none → regions[k].vis = .priv ∧ regions[k].doc = none) := by
-  sorry
+  exact nameRegions_spec reg off placed regions h
 
 theorem placeholder_private (j : Nat) : (placeholderFn j).vis = .priv ∧ (placeholderFn j).doc = none := by
-  sorry
+  exact ⟨rfl, rfl⟩
 
 /-! ## derives and packing -/
 
@@ -73,18 +74,19 @@ theorem placeholder_private (j : Nat) : (placeholderFn j).vis = .priv ∧ (place
 theorem type_flags (attrs : List G.Attr) (ta : TypeAttrs) (h : Res.foldlM typeAttrStep {} attrs = .ok ta) :
     Emit.derivesOf ta.copyable ta.cloneable ta.defaultable = specDerives attrs
     ∧ ta.packed = hasIdent attrs "packed" := by
-  sorry
+  exact type_flags_aux attrs ta h
 
 theorem enum_flags (attrs : List G.Attr) (ea : EnumAttrs) (h : Res.foldlM enumAttrStep {} attrs = .ok ea) :
     Emit.derivesOf ea.copyable ea.cloneable ea.defaultable = specDerives attrs := by
-  sorry
+  exact enum_flags_aux attrs ea h
 
 /-- packed types are emitted `repr(C, packed)` with no alignment attribute; all others `repr(C, align(N))` -/
 theorem packed_no_align (reg : Registry) (path : Path) (size align : Nat) (vis : Vis) (td : TypeDefn) :
     ∃ docs derives rest tl, Emit.typeItems reg path size align vis td =
       Sexp.mk "struct" (docs :: derives ::
         Sexp.mk "repr" (if td.packed then [.str "C", .str "packed"] else [.str "C", .str ("align(" ++ toString align ++ ")")]) :: rest) :: tl := by
-  sorry
+  obtain ⟨tl, h⟩ := typeItems_head reg path size align vis td
+  exact ⟨_, _, _, tl, h⟩
 
 /-! ## non-vacuity -/
 example : docStrings [.assign "doc" (.str " a"), .ident "copyable", .assign "doc" (.str "")] = [" a", ""] := by decide
